@@ -530,6 +530,12 @@ Section Pipeline.
       else Err
     else Ok r.
 
+  (* the re-check at the end of HashTransformerPlugin.Transform (fix "HashTransformer checks that the hash-suffixed names
+     do not collide with the id of another resource"): the id of every renamed resource occurs exactly once *)
+  Definition hash_check (m1 : list resource) : res unit :=
+    if forallb (fun r => negb (r_needs_hash r) || Nat.eqb (count_id pipe_cs (cur_id pipe_cs r) m1) 1) m1
+    then Ok tt else Err.
+
   (* SortOrderTransformerPlugin.Transform: legacy = sort by (gvk rank, gvk, namespace, name) then re-Append *)
   Definition rid_of (r : resource) : LegacySort.rid :=
     let id := cur_id pipe_cs r in
@@ -618,6 +624,7 @@ Section Pipeline.
     | PDir _ _ _ =>
         do m <- accumulate t;
         do m1 <- mapM hash_res m;                      (* addHashesToNames *)
+        do _ <- hash_check m1;                         (*   ... and its id re-check *)
         do rules <- pipe_rules;
         do m2 <- nameref_transform pipe_cs nonstr rules m1;      (* FixBackReferences *)
         do m2l <- ignore_local m2;                     (* IgnoreLocal *)
